@@ -68,19 +68,22 @@ def run(ctx):
     ctx.touch(f)
 
     # ---- C04.1 body suppression
-    # the final `do_not_send_body`: a multi-definition bool local tested right before the body is sent
+    # the final `do_not_send_body`: a multi-definition bool local; every construct that puts body bytes (or chunk framing)
+    # on the wire -- io::copy and the construction of the chunk Encoder, whose Drop writes the last-chunk -- must sit on the
+    # not-suppressed edge of a test of that local
     copies = [bb for bb, t in f.calls() if call_matches(t, r"^std::io::copy(::<|$)")]
+    encs0 = [bb for bb, t in f.calls() if call_matches(t, r"chunked_transfer::Encoder::<W>::(new|with_chunks_size)$")]
     ctx.require(copies, "C04.1: no io::copy in raw_print")
     dom = f.dominators(False)
-    final = None
-    body_sw = None
-    for b in sorted(set.intersection(*[dom[c] for c in copies]), key=lambda b: -len(dom[b])):
+
+    def flag_of_switch(b):
         bs = bool_switch(f, b)
         if not bs:
-            continue
+            return None
         l = op_local(bs[0])
-        src = l
-        neg = False
+        if l is None:
+            return None
+        src, neg = l, False
         d = f.single_def(l)
         while d and d[0] == "assign":
             if d[3]["rv"] == "use" and op_local(d[3]["op"]) is not None:
@@ -91,15 +94,34 @@ def run(ctx):
                 break
             d = f.single_def(src)
         defs = [x for x in f.defs().get(src, []) if x[0] == "assign"]
-        if len(defs) >= 2:
-            final = src
-            body_sw = (b, bs, neg)
-            break
-    ctx.require(final is not None, "C04.1: the body-suppression flag was not found")
-    b, bs, neg = body_sw
-    send_edge = bs[1] if neg else bs[2]
-    ok = all(f.dominates(send_edge, c, unwind=False) for c in copies) and bs[1] != bs[2]
-    ctx.ob("C04.1", "%s|body-only-when-not-suppressed" % f.id, "body bytes are copied only on the branch where the suppression flag is false", ok, f.loc(b))
+        if len(defs) >= 2 and f.local_ty(src) == "bool" and src not in f.flag_locals():
+            return src, (bs[1] if neg else bs[2])      # (flag local, edge taken when the body is sent)
+        return None
+
+    final = None
+    send_edges = {}
+    for c in copies:
+        for b in sorted(dom[c], key=lambda b: -len(dom[b])):
+            r = flag_of_switch(b)
+            if r and f.dominates(r[1], c, unwind=False):
+                final = r[0] if final is None else final
+                send_edges[b] = r[1]
+                break
+    ctx.ob("C04.1", "%s|suppression-flag" % f.id, "(anchor) raw_print decides with one flag whether body bytes are sent", final is not None, "%s:%d" % (f.file, f.line), nontrivial=False)
+    if final is None:
+        ctx.ob("C04.1", "%s|body-only-when-not-suppressed" % f.id, "body bytes are copied only on the branch where the suppression flag is false", False, f.loc(copies[0]), "no dominating test of a suppression flag")
+        return {}
+    all_tests = {b: flag_of_switch(b) for b in sorted(f.live_blocks()) if flag_of_switch(b) and flag_of_switch(b)[0] == final}
+    for i, site in enumerate(sorted(copies + encs0)):
+        ok = any(f.dominates(r[1], site, unwind=False) for r in all_tests.values())
+        what = "io::copy" if site in copies else "chunk encoder"
+        ctx.ob("C04.1", "%s|body-only-when-not-suppressed|%s|%d" % (f.id, what, i),
+               "body bytes and chunk framing (the encoder writes a last-chunk when dropped) are produced only on the branch where the suppression flag is false",
+               ok, f.loc(site), None if ok else "%s is reachable although the body is suppressed (HEAD, 1xx, 204, 304)" % what)
+    b, r0 = sorted(all_tests.items())[0]
+    bs = bool_switch(f, b)
+    send_edge = r0[1]
+    neg = send_edge == bs[1]
     # walk from the first block that decides the flag to its first use
     def_blocks = {x[1] for x in f.defs().get(final, []) if x[0] == "assign"}
     start = min(set.intersection(*[dom[d] for d in def_blocks]), key=lambda x: -len(dom[x]))
